@@ -7,8 +7,8 @@
 (* signatures (each made over the current content: every content-changing  *)
 (* subcommand clears them) -- and the result of the last command.  The     *)
 (* initial state is the file after `init` and `set-threshold <role> 1` for *)
-(* the four roles.  A second, finished root (root key 1, threshold 1) is   *)
-(* available for --cross-sign.                                             *)
+(* the four roles.  A second, finished root (root keys 1 and 2, threshold  *)
+(* 1, signed by key 2) is available for --cross-sign.                      *)
 (*                                                                         *)
 (* CountOwnKeysOnly = TRUE : `sign` compares the root threshold with the   *)
 (*    number of signatures made by keys the file lists for its root role   *)
@@ -16,19 +16,21 @@
 (***************************************************************************)
 EXTENDS Naturals, Sequences, FiniteSets, TLC, Json
 
-CONSTANTS KeyIds, MaxCmds, CountOwnKeysOnly
+CONSTANTS KeyIds, MaxCmds, CountOwnKeysOnly, CrossAppends
 Roles == {"root", "timestamp", "snapshot", "targets"}
-CrossRootKeys == {1}      \* the other root's root role: key 1, threshold 1; its key table: {1}
+CrossRootKeys == {1, 2}   \* the other root's root role: keys 1 and 2, threshold 1; its key table: {1, 2}
+CrossSigs == {2}          \* the other root is signed by key 2 (over ITS content)
 
 VARIABLES
-  version, keys, rolekeys, thr, sigs,   \* the file
+  version, keys, rolekeys, thr, sigs,   \* the file (sigs: entries that are valid over the current content)
+  stale,     \* key ids of signature entries in the file that were made over other content
   last,      \* [cmd, ok] of the last command
   cmds       \* the sequence of commands so far (with their outcome)
-vars == <<version, keys, rolekeys, thr, sigs, last, cmds>>
-view == <<version, keys, rolekeys, thr, sigs, last, Len(cmds)>>
+vars == <<version, keys, rolekeys, thr, sigs, stale, last, cmds>>
+view == <<version, keys, rolekeys, thr, sigs, stale, last, Len(cmds)>>
 
 Init == /\ version = 1 /\ keys = {} /\ rolekeys = [r \in Roles |-> {}] /\ thr = [r \in Roles |-> 1]
-        /\ sigs = {} /\ last = [cmd |-> "init", ok |-> TRUE, plain |-> FALSE] /\ cmds = <<>>
+        /\ sigs = {} /\ stale = {} /\ last = [cmd |-> "init", ok |-> TRUE, plain |-> FALSE] /\ cmds = <<>>
 
 Can == Len(cmds) < MaxCmds
 Done(c, ok, plain) == /\ last' = [cmd |-> c.cmd, ok |-> ok, plain |-> plain]
@@ -38,7 +40,7 @@ AddKey(k, rs) ==
   LET c == [cmd |-> "add-key", key |-> k, roles |-> rs, ok |-> TRUE] IN
   /\ Can /\ keys' = keys \cup {k}
   /\ rolekeys' = [r \in Roles |-> IF r \in rs THEN rolekeys[r] \cup {k} ELSE rolekeys[r]]
-  /\ sigs' = {} /\ Done(c, TRUE, FALSE) /\ UNCHANGED <<version, thr>>
+  /\ sigs' = {} /\ stale' = {} /\ Done(c, TRUE, FALSE) /\ UNCHANGED <<version, thr>>
 \* remove-key <id> [role]: from one role's list, or from every list and the table
 RemoveKey(k, r) ==
   LET c == [cmd |-> "remove-key", key |-> k, role |-> r, ok |-> TRUE] IN
@@ -46,20 +48,20 @@ RemoveKey(k, r) ==
   /\ IF r = "all"
      THEN /\ keys' = keys \ {k} /\ rolekeys' = [x \in Roles |-> rolekeys[x] \ {k}]
      ELSE /\ rolekeys' = [rolekeys EXCEPT ![r] = @ \ {k}] /\ UNCHANGED keys
-  /\ sigs' = {} /\ Done(c, TRUE, FALSE) /\ UNCHANGED <<version, thr>>
+  /\ sigs' = {} /\ stale' = {} /\ Done(c, TRUE, FALSE) /\ UNCHANGED <<version, thr>>
 SetThreshold(r, n) ==
   LET c == [cmd |-> "set-threshold", role |-> r, n |-> n, ok |-> TRUE] IN
-  /\ Can /\ thr' = [thr EXCEPT ![r] = n] /\ sigs' = {} /\ Done(c, TRUE, FALSE)
+  /\ Can /\ thr' = [thr EXCEPT ![r] = n] /\ sigs' = {} /\ stale' = {} /\ Done(c, TRUE, FALSE)
   /\ UNCHANGED <<version, keys, rolekeys>>
 BumpVersion ==
   LET c == [cmd |-> "bump-version", ok |-> TRUE] IN
-  /\ Can /\ version' = version + 1 /\ sigs' = {} /\ Done(c, TRUE, FALSE) /\ UNCHANGED <<keys, rolekeys, thr>>
+  /\ Can /\ version' = version + 1 /\ sigs' = {} /\ stale' = {} /\ Done(c, TRUE, FALSE) /\ UNCHANGED <<keys, rolekeys, thr>>
 SetVersion(n) ==
   LET c == [cmd |-> "set-version", n |-> n, ok |-> TRUE] IN
-  /\ Can /\ version' = n /\ sigs' = {} /\ Done(c, TRUE, FALSE) /\ UNCHANGED <<keys, rolekeys, thr>>
+  /\ Can /\ version' = n /\ sigs' = {} /\ stale' = {} /\ Done(c, TRUE, FALSE) /\ UNCHANGED <<keys, rolekeys, thr>>
 Expire ==
   LET c == [cmd |-> "expire", ok |-> TRUE] IN
-  /\ Can /\ sigs' = {} /\ Done(c, TRUE, FALSE) /\ UNCHANGED <<version, keys, rolekeys, thr>>
+  /\ Can /\ sigs' = {} /\ stale' = {} /\ Done(c, TRUE, FALSE) /\ UNCHANGED <<version, keys, rolekeys, thr>>
 
 \* sign -k ... [--cross-sign other] [-i]
 Sign(ks, cross, ign) ==
@@ -68,13 +70,18 @@ Sign(ks, cross, ign) ==
       holderRoot  == IF cross THEN CrossRootKeys ELSE rolekeys["root"]
       usable  == ks \cap holderTable            \* get_root_keys: must not be empty
       newsigs == usable \cap holderRoot         \* SignedRole::new signs with the keys the holder lists for root
-      allsigs == newsigs \cup sigs              \* add_old_signatures
+      appendOther == cross /\ CrossAppends
+      allsigs == newsigs \cup (IF appendOther THEN {} ELSE sigs)          \* add_old_signatures
+      \* an old entry by a key that has just signed is not added again
+      allstale == (IF appendOther THEN CrossSigs ELSE stale) \ allsigs
+      entries == allsigs \cup allstale
       unstable == \E r \in Roles : thr[r] > Cardinality(rolekeys[r])
-      counted == IF CountOwnKeysOnly THEN allsigs \cap rolekeys["root"] ELSE allsigs
+      counted == IF CountOwnKeysOnly THEN entries \cap rolekeys["root"] ELSE entries
       short == thr["root"] > Cardinality(counted)
       ok == usable # {} /\ (ign \/ (~unstable /\ ~short))
   IN /\ Can
      /\ sigs' = IF ok THEN allsigs ELSE sigs
+     /\ stale' = IF ok THEN allstale ELSE stale
      /\ Done(c, ok, ~cross /\ ~ign)
      /\ UNCHANGED <<version, keys, rolekeys, thr>>
 
@@ -93,9 +100,11 @@ Spec == Init /\ [][Next]_vars
 SelfVerifies == Cardinality(sigs \cap rolekeys["root"] \cap keys) >= thr["root"]
 PlainSignSelfVerifies == last.cmd = "sign" /\ last.ok /\ last.plain => SelfVerifies
 \* every content-changing subcommand has removed all signatures
-EditsClearSigs == last.cmd \notin {"sign", "init"} /\ last.ok => sigs = {}
+EditsClearSigs == last.cmd \notin {"sign", "init"} /\ last.ok => sigs = {} /\ stale = {}
+\* the code never leaves an entry made over other content (checked with CrossAppends = FALSE)
+NoStaleEntries == ~CrossAppends => stale = {}
 \* signatures only ever come from keys that a sign command was given
-FileState == [version |-> version, keys |-> keys, rolekeys |-> rolekeys, thr |-> thr, sigs |-> sigs]
+FileState == [version |-> version, keys |-> keys, rolekeys |-> rolekeys, thr |-> thr, sigs |-> sigs \cup stale]
 
 \* witnesses: command sequences on which the other counting rule breaks the property
 EmitBad == ~PlainSignSelfVerifies => PrintT(<<"REPLAY", ToJson([cmds |-> cmds, final |-> FileState, witness |-> TRUE])>>)
